@@ -65,6 +65,77 @@ def read_expr(name, path):
     return e
 
 
+def self_concat_family(rng):
+    """`x = x + e` and its variants must build a NEW list whatever else refers to the old one (shared with C16)"""
+    out = []
+    # self-concatenation family: `x = x + e` (and its variants) must build a NEW list — whoever else refers to the old
+    # one (a container slot, a second variable, the caller's variable, a record field) must not see the new elements,
+    # and later writes through either reference must not show through the other
+    fam = 0
+    holders = ["slot", "var", "param", "field", "none"]
+    rhs_kinds = ["lit", "var", "call", "empty"]
+    forms = ["x+e", "e+x", "(x+e)", "x+e+e"]
+    for hi, holder in enumerate(holders):
+        for ri, rk in enumerate(rhs_kinds):
+            for fi, form in enumerate(forms):
+                r = rng.fork(f"sc{hi}-{ri}-{fi}")
+                prog = [("func", "দুই", [], [("return", G.lst(G.num(7), G.num(8)))]),
+                        ("decl", "ক", G.lst(G.num(1), G.num(2)))]
+                other = None
+                if holder == "slot":
+                    prog.append(("decl", "ম", G.lst(G.var("ক"), G.num(0)))); other = G.idx(G.var("ম"), G.num(0))
+                elif holder == "var":
+                    prog.append(("decl", "খ", G.var("ক"))); other = G.var("খ")
+                elif holder == "field":
+                    prog.append(("decl", "র", G.rec((G.s("ভ"), G.var("ক"))))); other = G.idx(G.var("র"), G.s("ভ"))
+                prog.append(("decl", "অন্য", G.lst(G.num(5))))
+                e = {"lit": G.lst(G.num(3)), "var": G.var("অন্য"), "call": G.call("দুই"), "empty": G.lst()}[rk]
+                def rhs(x):
+                    return {"x+e": G.bin_("+", x, e), "e+x": G.bin_("+", e, x), "(x+e)": G.grp(G.bin_("+", x, e)),
+                            "x+e+e": G.bin_("+", G.bin_("+", x, e), e)}[form]
+                if holder == "param":
+                    prog.insert(1, ("func", "বাড়াও", ["ত"], [("assign", "ত", [], rhs(G.var("ত"))),
+                                                            ("expr", G.call("_লিস্ট-পুশ", G.var("ত"), G.num(99))),
+                                                            ("return", G.var("ত"))]))
+                    prog.append(("decl", "ফল", G.call("বাড়াও", G.var("ক"))))
+                    prog.append(("print", G.var("ফল")))
+                    prog.append(("print", G.var("ক")))
+                    prog.append(("assign", "ফল", [G.num(0)], G.s("ফ")))
+                    prog.append(("print", G.var("ক")))
+                else:
+                    prog.append(("assign", "ক", [], rhs(G.var("ক"))))
+                    prog.append(("print", G.var("ক")))
+                    if other is not None:
+                        prog.append(("print", other))
+                    prog.append(("assign", "ক", [G.num(0)], G.s("ন")))
+                    prog.append(("expr", G.call("_লিস্ট-পুশ", G.var("ক"), G.num(42))))
+                    prog.append(("print", G.var("ক")))
+                    if other is not None:
+                        prog.append(("print", other))
+                        if holder == "slot":
+                            prog.append(("assign", "ম", [G.num(0), G.num(1)], G.s("ভ")))
+                        elif holder == "var":
+                            prog.append(("assign", "খ", [G.num(1)], G.s("ভ")))
+                        else:
+                            prog.append(("assign", "র", [G.s("ভ"), G.num(1)], G.s("ভ")))
+                        prog.append(("print", G.var("ক")))
+                        prog.append(("print", other))
+                    prog.append(("print", G.var("অন্য")))
+                # the same statement repeated in a loop (the idiom an in-place shortcut would target)
+                prog.append(("decl", "জ", G.lst()))
+                prog.append(("decl", "ধ", G.lst(G.var("জ"))))
+                prog.append(("decl", "i", G.num(0)))
+                prog.append(("loop", [("if", [(G.bin_(">=", G.var("i"), G.num(3)), [("break",)])], None),
+                                      ("assign", "জ", [], G.bin_("+", G.var("জ"), G.lst(G.var("i")))),
+                                      ("assign", "i", [], G.bin_("+", G.var("i"), G.num(1)))]))
+                prog.append(("print", G.var("জ")))
+                prog.append(("print", G.var("ধ")))
+                out.append(prog_case("self-concat", prog, rng=r, info={"holder": holder, "rhs": rk, "form": form}))
+                fam += 1
+
+    return out
+
+
 def cases(rng, tier, stats):
     out = []
     n = 15000 if tier == "thorough" else 600
@@ -141,6 +212,10 @@ def cases(rng, tier, stats):
             prog.append(("print", G.bin_("==", G.var("ক"), G.var("গ"))))
         deep += wrote_deep
         out.append(prog_case("alias-graph", prog, rng=r, nontrivial=wrote_deep, info={"steps": len(prog)}))
+    sc = self_concat_family(rng)
+    out += sc
+    fam = len(sc)
     stats["programs"] = n
     stats["with_deep_write"] = deep
+    stats["self_concat_family"] = fam
     return out
